@@ -368,6 +368,30 @@ func (w *apiWorld) runOps(L *lua.LState) int {
 				continue // callee code in a nearly exhausted registry: overflow there is C12's subject
 			}
 			w.callOp(L, a)
+		case "callg":
+			if w.tight {
+				continue
+			}
+			w.callgOp(L, a)
+		case "xidx":
+			w.xidxOp(L, a)
+		case "pfailat":
+			if w.tight {
+				continue
+			}
+			w.pfailatOp(L, a)
+		case "objh":
+			if w.tight {
+				continue
+			}
+			w.objhOp(L, a)
+		case "objc0":
+			w.objc0Op(L)
+		case "objcr":
+			if w.tight {
+				continue
+			}
+			w.objcrOp(L, a)
 		case "obj":
 			if w.tight {
 				continue
@@ -1214,17 +1238,29 @@ func genAPICase(r *Rng, maxOps int, profile string) []Op {
 	for len(g.ops) < nops {
 		c := r.Intn(100)
 		if profile == "obj" {
-			if c < 70 {
+			if c < 60 {
 				g.add(genObjOp(r)...)
 				continue
 			}
+			if c < 70 {
+				g.objh()
+				continue
+			}
 		} else if profile == "call" {
-			if c < 45 {
+			if c < 30 {
 				g.call(genCallOp(r))
+				continue
+			}
+			if c < 45 {
+				g.callg()
 				continue
 			}
 		}
 		c = r.Intn(100)
+		if r.Chance(1) {
+			g.xidx()
+			continue
+		}
 		switch {
 		case c < 95:
 			g.stackOp(c)
@@ -1405,7 +1441,21 @@ func gridCases(r *Rng) [][]Op {
 	return res
 }
 
-func init() { props["C10"] = runC10; replayExec["C10"] = execAPI }
+func init() { props["C10"] = runC10; replayExec["C10"] = execC10 }
+
+// execC10: the executor of a case by its family: objspec cases are written in the C04M request language (c10_objspec.go),
+// Next reference cases start with `nexttbl`, everything else is an activation history.
+func execC10(ops []Op) []string {
+	if len(ops) > 0 {
+		switch ops[0].Args[0] {
+		case "fn", "tbl", "ud", "set", "mt":
+			return execMeta(ops)
+		case "nexttbl":
+			return execNextRef(ops)
+		}
+	}
+	return execAPI(ops)
+}
 
 func runC10(run *Run) {
 	if f := os.Getenv("C10_DUMP"); f != "" { // dev helper: print the request lines of one corpus file and the driver's verdicts
@@ -1428,11 +1478,11 @@ func runC10(run *Run) {
 	if run.Tier == "thorough" {
 		nHist, nCall, nObj, maxOps = 70000, 20000, 30000, 70
 	}
-	run.Rule = "random histories of Push/Pop/Get/SetTop/Insert/Remove/Replace/GetTop (valid, 0, ±top, ±(top+1), far-out indices; nil values inside the list) executed through the public API inside a host function reached through a chain of 0–6 activations (Lua frames with live locals, host frames with own stack values; depth 0 = top level), with the registry at 128 slots + forced growth / tight maximum, each step replayed on the Lean Model of state.go (exact: list, results, whole registry snapshot incl. caller prefix) and on the list Spec; bounded-exhaustive TEST grid (nargs, NRet, produced) in [0,4]x[-1,4]x[0,4] x {Lua, Go callee} x {Call, PCall, CallByParam, CallByParam+Protect} plus failing protected variants; bounded-exhaustive TEST grid of protected calls made inside the activation: depth 0..6 x entry {PCall, CallByParam+Protect} x handler {none, 5 returning kinds, 7 failing kinds: Lua error / table error / fault / call-stack overflow / RaiseError / Go value panic / nested failing protected call} x callee {lua, luatail, go} x outcome {returns, Lua error, fault or Go runtime panic, call-stack overflow, registry overflow, Go value panic}, each followed by gettop + full index sweep + whole-registry snapshot + stack operations + a second protected call (Model = PCall's deferred function by exit path, Spec = list without function/arguments/partial results); host frames of the chain with returning/raising/panicking handlers and activations that fail; Get/Replace/To* at pseudo-indices (registry, environment, globals, upvalues within/beyond a SetFuncs closure's 0..3 upvalues) on the Model of those branches and the manual's cells Spec, the ten To* conversions at valid/negative/beyond-top/pseudo indices for values of every type vs the Lua definitions on the same value; GetFEnv/SetFEnv/ForEach/Register/SetFuncs vs Lua twins; object-level API vs the same operands evaluated by a Lua chunk in the same state (Impl vs Impl, handler logs compared); distinct = distinct op-kind skeletons"
+	run.Rule = "random histories of Push/Pop/Get/SetTop/Insert/Remove/Replace/GetTop (valid, 0, ±top, ±(top+1), far-out indices; nil values inside the list) executed through the public API inside a host function reached through a chain of 0–6 activations (Lua frames with live locals, host frames with own stack values; depth 0 = top level), with the registry at 128 slots + forced growth / tight maximum, each step replayed on the Lean Model of state.go (exact: list, results, whole registry snapshot incl. caller prefix) and on the list Spec; bounded-exhaustive TEST grid (nargs, NRet, produced) in [0,4]x[-1,4]x[0,4] x {Lua, Go callee} x {Call, PCall, CallByParam, CallByParam+Protect} plus failing protected variants; bounded-exhaustive TEST grid of protected calls made inside the activation: depth 0..6 x entry {PCall, CallByParam+Protect} x handler {none, 5 returning kinds, 7 failing kinds: Lua error / table error / fault / call-stack overflow / RaiseError / Go value panic / nested failing protected call} x callee {lua, luatail, go} x outcome {returns, Lua error, fault or Go runtime panic, call-stack overflow, registry overflow, Go value panic}, each followed by gettop + full index sweep + whole-registry snapshot + stack operations + a second protected call (Model = PCall's deferred function by exit path, Spec = list without function/arguments/partial results); host frames of the chain with returning/raising/panicking handlers and activations that fail; Get/Replace/To* at pseudo-indices (registry, environment, globals, upvalues within/beyond a SetFuncs closure's 0..3 upvalues) on the Model of those branches and the manual's cells Spec, the ten To* conversions at valid/negative/beyond-top/pseudo indices for values of every type vs the Lua definitions on the same value; GetFEnv/SetFEnv/ForEach/Register/SetFuncs vs Lua twins; object-level API vs the same operands evaluated by a Lua chunk in the same state (Impl vs Impl, handler logs compared); composed call contract: host callees called directly / through __call performing a history of stack operations and returning any count up to their top, through every call entry (random + TEST grid nargs x NRet x kind x entry x count); Get / Replace at extreme indices (around the pseudo-index range, 2^40, 2^62, MaxInt64-300..MaxInt64, MinInt64) on the Model with Go's wrapping int arithmetic; ToStringMeta / ObjLen / Concat with host-function handlers performing stack operations (Model: Push/Push/Call(n,1)/reg.Pop), Concat() without operand, __concat returning every kind of value; protected calls failing inside 0..3 nested host activations x handler none / returning / failing x both protected entries (Model: frame entries, pushes, raiseError's push, handler frame, PCall's deferred function); object-level entries against an implementation-independent oracle: operands described to the Lean side (MetaModel + manual Spec) which computes expected handler calls and results — comparison handlers different / same / one-sided / shared metatable / __le missing / mixed types in both operand orders, __metatable in {absent, false, true, 0, \"\", \"locked\", table, userdata, function} on objects of every type, __index / __newindex chains through GetTable / GetField / GetGlobal / SetTable / SetField / SetGlobal, Concat / ObjLen / ToStringMeta handler placements, L.Next traversals vs the stored contents (all bounded-exhaustive TESTS); distinct = distinct op-kind skeletons"
 	run.Assume = []string{"the activation's entry state is read through the verif hooks VerifSnapshot / VerifRegistryValues (read-only)",
-		"callee bodies are abstracted in the Model as 'pushes junk then its results' (host callee); Lua callees (OP_RETURN) are tied only through the observed list after the call",
+		"host callee bodies are replayed on the Model as the history of stack operations they perform + the count they return (callg / hcall / pfailat) or as 'pushes junk then its results' (call); Lua callees (OP_RETURN) are tied only through the observed list after the call",
 		"dead slots above top are re-synchronised from the real registry after callee code ran (they are semantically dead; only Insert beyond top+1 can expose them, which is outside the property's index domain)",
-		"pseudo-indices (RegistryIndex, EnvironIndex, GlobalsIndex, upvalue indices) are outside the model"}
+		"object-level entries: expected handler calls and results are computed by the Lean side (MetaModel = dispatch code, MetaSpec = manual) from a description of the operands (objspec family, request language of the C04M engine); handlers are opaque (log entry + return values); formatting of non-integral numbers is compared in Go only"}
 	root := NewRng(uint64(run.Seed))
 	var cases []Case
 	for i, c := range loadCorpus("C10") {
@@ -1465,6 +1515,31 @@ func runC10(run *Run) {
 	for i, g := range pseudo {
 		cases = append(cases, Case{Idx: 5000000 + i, Ops: g, Note: "pseudo"})
 	}
+	deep := callgGrid(root.Fork(780))
+	for i, g := range deep {
+		cases = append(cases, Case{Idx: 6000000 + i, Ops: g, Note: "callg"})
+	}
+	xidx := idxCases(root.Fork(781))
+	for i, g := range xidx {
+		cases = append(cases, Case{Idx: 7000000 + i, Ops: g, Note: "xidx"})
+	}
+	objh := objhCases(root.Fork(782))
+	for i, g := range objh {
+		cases = append(cases, Case{Idx: 8000000 + i, Ops: g, Note: "objh"})
+	}
+	pfa := pfailatCases(root.Fork(786))
+	for i, g := range pfa {
+		cases = append(cases, Case{Idx: 10000000 + i, Ops: g, Note: "pfailat"})
+	}
+	var ospec [][]Op
+	ospec = append(ospec, cmpCases(root.Fork(783))...)
+	ospec = append(ospec, getmtCases(root.Fork(784))...)
+	ospec = append(ospec, chainCases()...)
+	ospec = append(ospec, strCases(root.Fork(785))...)
+	ospec = append(ospec, nextCases()...)
+	for i, g := range ospec {
+		cases = append(cases, Case{Idx: 9000000 + i, Ops: g, Note: "objspec"})
+	}
 	if only := os.Getenv("C10_ONLY"); only != "" { // dev helper: run one family only (corpus | hist | call | obj | grid | prot | pseudo)
 		fam := func(c Case) string {
 			switch {
@@ -1480,8 +1555,18 @@ func runC10(run *Run) {
 				return "grid"
 			case c.Idx < 5000000:
 				return "prot"
+			case c.Idx < 6000000:
+				return "pseudo"
+			case c.Idx < 7000000:
+				return "callg"
+			case c.Idx < 8000000:
+				return "xidx"
+			case c.Idx < 9000000:
+				return "objh"
+			case c.Idx < 10000000:
+				return "objspec"
 			}
-			return "pseudo"
+			return "pfailat"
 		}
 		var sel []Case
 		for _, c := range cases {
@@ -1497,9 +1582,14 @@ func runC10(run *Run) {
 		if hi > len(cases) {
 			hi = len(cases)
 		}
-		runCases(run, cases[lo:hi], execAPI, classifyTagged)
+		runCases(run, cases[lo:hi], execC10, classifyTagged)
 	}
 	run.Extra["grid_cases"] = len(gridCases(root.Fork(777)))
 	run.Extra["protected_call_cases"] = len(prot)
 	run.Extra["pseudo_index_cases"] = len(pseudo)
+	run.Extra["composed_call_cases"] = len(deep)
+	run.Extra["extreme_index_cases"] = len(xidx)
+	run.Extra["handler_sequence_cases"] = len(objh)
+	run.Extra["nested_protected_failure_cases"] = len(pfa)
+	run.Extra["independent_object_oracle_cases"] = len(ospec)
 }
